@@ -80,16 +80,23 @@ func init() {
 				return
 			}
 			const (
-				fresh   = 1 // cut() ran since the last flushChunk
-				pending = 2 // an entry was pulled and not yet judged / buffered
-				atSet   = 4 // (inlined cut) cutAt = len(entries) recorded since the last flushChunk
-				szSet   = 8 // (inlined cut) chunkSize = size recorded since the last flushChunk
+				fresh    = 1  // cut() ran since the last flushChunk
+				pending  = 2  // an entry was pulled and not yet judged / buffered
+				atSet    = 4  // (inlined cut) cutAt = len(entries) recorded since the last flushChunk
+				szSet    = 8  // (inlined cut) chunkSize = size recorded since the last flushChunk
+				wroteAll = 16 // Write(buffer.all()) ran after the last change of the buffer
 			)
+			nEnd := 0
 			nFlush, nCut := 0, 0
 			spec := &pathsim.Spec{}
 			spec.Atom = func(c *pathsim.Ctx, e ast.Expr) (int, bool, bool) {
 				if id, ok := ast.Unparen(e).(*ast.Ident); ok && okVars[c.Info.Uses[id]] {
 					return 0, false, true
+				}
+				if x, notNil, isCmp := pathsimIsNil(c.Info, e); isCmp {
+					if tv, has := c.Info.Types[x]; has && isErrorType(tv.Type) {
+						return 1, !notNil, true
+					}
 				}
 				return 0, false, false
 			}
@@ -104,7 +111,16 @@ func init() {
 						s.A |= pending
 						s.V[0] = pathsim.Unknown
 						return []pathsim.State{s}
+					case ev.Callee == types.Object(write):
+						if len(ev.Call.Args) == 1 {
+							if inner, isInner := ast.Unparen(deref(c.Info, ev.Call.Args[0])).(*ast.CallExpr); isInner && r.P.CalleeFunc(c.Info, inner) == all {
+								s.A |= wroteAll
+							}
+						}
+						s.V[1] = pathsim.Unknown
+						return []pathsim.State{s}
 					case ev.Callee == types.Object(add):
+						s.A &^= wroteAll
 						if len(ev.Call.Args) == 1 && entryVars[prog.IdentObj(c.Info, ev.Call.Args[0])] {
 							if s.V[0] == pathsim.False {
 								c.Violate(ev.Pos, "[add-after-end] an entry is added after the input reported its end (the zero entry)")
@@ -152,10 +168,37 @@ func init() {
 					}
 					return []pathsim.State{s}
 				case pathsim.EvReturn:
-					if len(ev.Results) == 2 {
-						if tv, ok := c.Info.Types[ev.Results[1]]; ok && tv.IsNil() && s.A&pending != 0 && s.V[0] != pathsim.False {
-							c.Violate(ev.Pos, "[entry-dropped] WriteRun returns successfully although a pulled entry was not added to the buffer")
+					if c.Depth > 0 {
+						return nil
+					}
+					success := false
+					switch len(ev.Results) {
+					case 2:
+						if tv, ok := c.Info.Types[ev.Results[1]]; ok && tv.IsNil() {
+							success = true
 						}
+					case 0:
+						success = s.V[1] != pathsim.True // bare return of named results: unless the error is known non-nil
+					case 1:
+						// `return c.writeRemaining(tables, buffer)`: the helper's results, one of which may be
+						// the success (its body was simulated in place just before)
+						if _, isCall := ast.Unparen(ev.Results[0]).(*ast.CallExpr); isCall {
+							success = true
+						}
+					}
+					if !success {
+						return nil
+					}
+					if s.A&pending != 0 && s.V[0] != pathsim.False {
+						c.Violate(ev.Pos, "[entry-dropped] WriteRun returns successfully although a pulled entry was not added to the buffer")
+					}
+					if s.V[0] == pathsim.False {
+						nEnd++
+						if s.A&wroteAll == 0 {
+							c.Violate(ev.Pos, "[end-of-input] at the end of the input WriteRun returns successfully without having written everything that is buffered (Write(buffer.all())): the tail of the run is lost")
+						}
+					} else {
+						c.Violate(ev.Pos, "[early-success] WriteRun returns successfully although the input was not seen to end: the rest of the run is never written")
 					}
 				}
 				return nil
@@ -164,40 +207,8 @@ func init() {
 			if nFlush == 0 || nCut == 0 {
 				r.Fail(f.Name()+":split-protocol:shape", f.Decl.Pos(), nil, "WriteRun no longer cuts and flushes chunks (cut: %d, flushChunk: %d call sites)", nCut, nFlush)
 			}
-			// the end of input writes the whole buffer: every successful return that follows a
-			// pull with ok == false returns the table written from buffer.all()
-			nEnd := 0
-			inspect(f.Decl.Body, func(nd ast.Node) bool {
-				is, ok := nd.(*ast.IfStmt)
-				if !ok {
-					return true
-				}
-				u, isNot := ast.Unparen(is.Cond).(*ast.UnaryExpr)
-				if !isNot || u.Op.String() != "!" {
-					return true
-				}
-				id, isID := ast.Unparen(u.X).(*ast.Ident)
-				if !isID || !okVars[info.Uses[id]] {
-					return true
-				}
-				nEnd++
-				r.Site(is.Pos(), "WriteRun end of input")
-				wroteAll := false
-				inspect(is.Body, func(m ast.Node) bool {
-					if call, isCall := m.(*ast.CallExpr); isCall && r.P.CalleeFunc(info, call) == write && len(call.Args) == 1 {
-						if inner, isInner := ast.Unparen(deref(info, call.Args[0])).(*ast.CallExpr); isInner && r.P.CalleeFunc(info, inner) == all {
-							wroteAll = true
-						}
-					}
-					return true
-				})
-				if !wroteAll {
-					r.Fail(f.Name()+":end-of-input", is.Pos(), nil, "at the end of the input WriteRun does not write everything that is buffered (Write(buffer.all())): the tail of the run is lost")
-				}
-				return true
-			})
 			if nEnd == 0 {
-				r.Fail(f.Name()+":end-of-input", f.Decl.Pos(), nil, "WriteRun has no end-of-input branch")
+				r.Fail(f.Name()+":end-of-input", f.Decl.Pos(), nil, "WriteRun has no successful return at the end of its input")
 			}
 
 			// cut(): cutAt = len(entries), chunkSize = size
@@ -281,6 +292,30 @@ func init() {
 					if len(x.Results) == 1 {
 						if call, isCall := isCallToNamed(fi, x.Results[0], "slices", "Values"); isCall && len(call.Args) == 1 && isSlice(call.Args[0], false, true) {
 							okRet = true
+						}
+						// the same sequence written out: func(yield) { for _, e := range chunk { if !yield(e) { return } } }
+						if lit, isLit := ast.Unparen(x.Results[0]).(*ast.FuncLit); isLit && len(lit.Body.List) == 1 && lit.Type.Params != nil && len(lit.Type.Params.List) == 1 && len(lit.Type.Params.List[0].Names) == 1 {
+							yield := fi.Defs[lit.Type.Params.List[0].Names[0]]
+							if rs, isRange := lit.Body.List[0].(*ast.RangeStmt); isRange && rs.Value != nil && isSlice(rs.X, false, true) {
+								elem := prog.IdentObjPlain(fi, rs.Value)
+								yields, other := 0, false
+								ast.Inspect(rs.Body, func(m ast.Node) bool {
+									switch y := m.(type) {
+									case *ast.CallExpr:
+										if prog.IdentObjPlain(fi, y.Fun) == yield && len(y.Args) == 1 && prog.IdentObjPlain(fi, y.Args[0]) == elem {
+											yields++
+										} else {
+											other = true
+										}
+									case *ast.BranchStmt:
+										other = true
+									}
+									return true
+								})
+								if yields == 1 && !other && elem != nil {
+									okRet = true
+								}
+							}
 						}
 					}
 				}
